@@ -91,7 +91,18 @@ def rule_P1(ctx, F):
     ok = esc is not None and has_guard(esc[1], IS_ESC, True) is not None
     ctx.ob(ok, "writer-escape-prefix-iff-escaped", esc[2] if esc else fn.loc, "leading backslash printed exactly on the is_escaped edge: %s" % ok)
     if esc and "tagged" in shapes and "untagged" in shapes:
-        ctx.ob(fn.dominates(esc[0], shapes["tagged"][3]) or not fn.paths_avoiding(0, shapes["tagged"][3], {esc[0]}) or True, "writer-prefix-before-line", esc[2], "prefix precedes both line forms")
+        # the is_escaped test precedes BOTH line forms, and on its true edge the prefix print cannot be skipped
+        sw_blocks = [(bi, b["term"]) for bi, b in enumerate(fn.blocks) if b["term"]["k"] == "switch" and unify(IS_ESC, val(fn.expr_operand(b["term"]["op"]))) is not None]
+        for form in ("tagged", "untagged"):
+            B = shapes[form][3]
+            okp = False
+            for sbi, st in sw_blocks:
+                listed = dict(st["targets"])
+                true_t = st["otherwise"] if 0 in listed else listed.get(1)
+                if fn.dominates(sbi, B) and true_t is not None and not fn.paths_avoiding(true_t, B, {esc[0]}):
+                    okp = True
+            ctx.ob(okp, "writer-prefix-before-%s-line" % form, shapes[form][2],
+                   "an escaped path's %s line is always preceded by the backslash marker: %s" % (form, okp))
     # reader literals
     su = F.need_fn("split_untagged_check_line")
     e = val(su.expr_local(0))
@@ -512,7 +523,7 @@ def rule_B1(ctx, F):
         raise MissingAnchor("main::{closure#0}")
     exits = [(bi, t) for bi, t in mc.calls() if norm_path(callee_name(t["callee"])).endswith("process::exit")]
     ctx.ob(len(exits) == 1, "one-exit", mc.loc, "%d process::exit call(s) in main" % len(exits))
-    FF = ("built", W(), "files_failed")
+    FF = W(pred=lambda x: isinstance(x, tuple) and len(x) == 3 and x[0] in ("built", "phi", "local") and x[2] == "files_failed")
     for bi, t in exits:
         a = t["args"][0]
         alts = local_defs_with_guards(mc, a["place"]["l"]) if a["k"] in ("copy", "move") else []
@@ -527,7 +538,8 @@ def rule_B1(ctx, F):
     # every Err of hash_one_input is counted
     hoi = [(bi, val(mc.expr_call(t))) for bi, t in mc.calls() if callee_name(t["callee"]) == "hash_one_input"]
     sat = [(bi, val(mc.expr_call(t)), t) for bi, t in mc.calls() if norm_path(callee_name(t["callee"])).endswith("saturating_add")]
-    ok = len(hoi) == 1 and len(sat) == 1 and has_guard(guards_at(mc, sat[0][0]), sw(hoi[0][1]), 1) is not None and unify(("call", W(), (FF, P.const(1))), sat[0][1]) is not None
+    sat = [x for x in sat if unify(("call", W(), (FF, P.const(1))), x[1]) is not None]
+    ok = len(hoi) == 1 and len(sat) == 1 and has_guard(guards_at(mc, sat[0][0]), sw(hoi[0][1]), 1) is not None
     ctx.ob(ok, "hash-error-counted", sat[0][2].get("s") if sat else mc.loc, "files_failed = files_failed.saturating_add(1) on the Err edge of hash_one_input: %s" % ok)
     if ok:
         # the Err edge cannot skip the increment
@@ -541,18 +553,35 @@ def rule_B1(ctx, F):
         nxt = [bi for bi, t in mc.calls() if norm_path(callee_name(t["callee"])).endswith("Iterator>::next")]
         ok2 = errt is not None and nxt and not mc.paths_avoiding(errt, nxt[0], {sat[0][0]}) and not any(mc.paths_avoiding(errt, e[0], {sat[0][0]}) for e in exits)
         ctx.ob(bool(ok2), "hash-error-always-counted", sat[0][2].get("s"), "no path from the Err edge to the next file or to exit skips the increment: %s" % bool(ok2))
-    # files_failed is written only there and by check_one_checkfile(&mut files_failed)
+    # files_failed only ever grows: every redefinition is the initial 0 or an accumulation of itself;
+    # the per-checkfile count reaches it through &mut or through an accumulating assignment
     ffl = [l for l in range(len(mc.locals)) if mc.names.get(l) == "files_failed"]
+    if not ffl:
+        raise MissingAnchor("local files_failed in main")
     w = []
-    for d in mc.defs().get(ffl[0], []) if ffl else []:
-        if d[0] == "assign":
-            w.append(show(val(mc.expr_rvalue(d[3]["rv"])))[:60])
+    lossy = []
+    for d in mc.defs().get(ffl[0], []):
+        if d[0] == "assign" and not d[3]["place"]["p"]:
+            v = val(mc.expr_rvalue(d[3]["rv"]))
+            w.append(show(v)[:60])
+            acc = v == ("const", None, 0) or (v[0] == "call" and norm_path(v[1]).endswith("saturating_add") and v[2] and (find_sub(v[2][0], ("built", ffl[0], W())) is not None or find_sub(v[2][0], ("phi", ffl[0], W())) is not None)) \
+                or (v[0] == "bin" and v[1] == "Add" and (find_sub(v, ("built", ffl[0], W())) is not None or find_sub(v, ("phi", ffl[0], W())) is not None))
+            if not acc:
+                lossy.append((show(v)[:80], d[3].get("s")))
         elif d[0] == "call":
-            w.append(callee_name(d[2]["callee"]).split("::")[-1])
+            v = val(mc.expr_call(d[2]))
+            w.append(show(v)[:60])
+            acc = norm_path(v[1]).endswith("saturating_add") and v[2] and (find_sub(v[2][0], ("built", ffl[0], W())) is not None or find_sub(v[2][0], ("phi", ffl[0], W())) is not None)
+            if not acc:
+                lossy.append((show(v)[:80], d[2].get("s")))
+    ctx.ob(not lossy, "files_failed-only-accumulates", lossy[0][1] if lossy else mc.loc,
+           "files_failed is redefined as %s -- failures counted so far are overwritten" % lossy[0][0] if lossy else "definitions of files_failed: %s" % w)
     cc = [(bi, val(mc.expr_call(t))) for bi, t in mc.calls() if callee_name(t["callee"]) == "check_one_checkfile"]
-    ok = sorted(x for x in w if "files_failed" not in x or True) and len(cc) == 1 and cc[0][1][2][2] == ("built", ffl[0], "files_failed")
-    other = [x for x in w if x != "0" and not x.startswith("saturating_add(") and x != "saturating_add" and not x.startswith("&mut")]
-    ctx.ob(bool(ok) and not other, "files_failed-writers", mc.loc, "files_failed defined by %s ; handed to check_one_checkfile as &mut" % w)
+    ctx.ob(len(cc) == 1, "one-checkfile-call", mc.loc, "%d check_one_checkfile call(s)" % len(cc))
+    by_ref = bool(cc) and any(a in (("built", ffl[0], "files_failed"), ("phi", ffl[0], "files_failed")) for a in cc[0][1][2])
+    by_val = bool(cc) and any(find_sub(val(mc.expr_rvalue(d[3]["rv"])) if d[0] == "assign" and not d[3]["place"]["p"] else (val(mc.expr_call(d[2])) if d[0] == "call" else ()), cc[0][1]) is not None
+                              for d in mc.defs().get(ffl[0], []) if d[0] in ("assign", "call"))
+    ctx.ob(by_ref or by_val, "checkfile-failures-reach-counter", mc.loc, "check_one_checkfile's failures reach files_failed (by &mut: %s, by returned count: %s)" % (by_ref, by_val))
     # check_one_checkfile(..)? propagates
     br = [c for c in calls_of(mc) if "Try>::branch" in c[1][1] and cc and c[1][2] == (cc[0][1],)]
     ctx.ob(len(br) == 1, "checkfile-error-propagates", mc.loc, "check_one_checkfile(..)? : %d" % len(br))
@@ -560,11 +589,23 @@ def rule_B1(ctx, F):
     cf = F.need_fn("check_one_checkfile")
     col = [(bi, val(cf.expr_call(t)), t) for bi, t in cf.calls() if callee_name(t["callee"]) == "check_one_line"]
     sat = [(bi, val(cf.expr_call(t)), t) for bi, t in cf.calls() if norm_path(callee_name(t["callee"])).endswith("saturating_add")]
-    ok = len(col) == 1 and len(sat) == 1 and has_guard(guards_at(cf, sat[0][0]), col[0][1], False) is not None and sat[0][1][2] == (("arg", 3, "files_failed"), ("const", None, 1))
-    ctx.ob(ok, "line-failure-counted", sat[0][2].get("s") if sat else cf.loc, "*files_failed = files_failed.saturating_add(1) on the check_one_line == false edge: %s" % ok)
-    st = [(bi, val(cf.expr_rvalue(s["rv"]))) for bi, si, s in cf.stmts() if s["k"] == "assign" and s["place"]["p"] == ["deref"] and s["place"]["l"] == 3]
-    ctx.ob(len(st) == 1 and sat and st[0][1] == sat[0][1], "line-failure-stored", cf.loc, "the incremented value is stored back through files_failed: %s" % [show(x[1])[:60] for x in st])
-    if ok:
+    CNT = W("cnt", pred=lambda x: isinstance(x, tuple) and ((x[0] == "arg" and x[2] == "files_failed") or (len(x) == 3 and x[0] in ("built", "phi") and isinstance(x[2], str))))
+    m = unify(("call", W(), (CNT, P.const(1))), sat[0][1]) if len(sat) == 1 else None
+    ok = len(col) == 1 and m is not None and has_guard(guards_at(cf, sat[0][0]), col[0][1], False) is not None
+    ctx.ob(ok, "line-failure-counted", sat[0][2].get("s") if sat else cf.loc, "counter = counter.saturating_add(1) on the check_one_line == false edge: %s" % ok)
+    stb = set()
+    if m is not None:
+        cnt = m["cnt"]
+        if cnt[0] == "arg":
+            st = [(bi, val(cf.expr_rvalue(s["rv"]))) for bi, si, s in cf.stmts() if s["k"] == "assign" and s["place"]["p"] == ["deref"] and s["place"]["l"] == cnt[1]]
+            ctx.ob(len(st) == 1 and st[0][1] == sat[0][1], "line-failure-stored", cf.loc, "the incremented value is stored back through the &mut counter: %s" % [show(x[1])[:60] for x in st])
+            stb = set(b for b, _ in st)
+        else:
+            ds = [d for d in cf.defs().get(cnt[1], []) if (d[0] == "call" and d[1] == sat[0][0]) or (d[0] == "assign" and not d[3]["place"]["p"] and val(cf.expr_rvalue(d[3]["rv"])) == sat[0][1])]
+            returned = any(e[0] == "adt" and e[2] == "Ok" and find_sub(e, cnt) is not None for b, gs, e in ret_alternatives(cf))
+            ctx.ob(bool(ds) and returned, "line-failure-stored", cf.loc, "the incremented value becomes the local counter (%s) and the counter is returned in Ok(..) (%s)" % (bool(ds), returned))
+            stb = set(d[1] for d in ds)
+    if ok and stb:
         ft = None
         for b2, blk in enumerate(cf.blocks):
             t2 = blk["term"]
@@ -572,7 +613,6 @@ def rule_B1(ctx, F):
                 listed = dict(t2["targets"])
                 ft = listed.get(0)
         rl = [bi for bi, t in cf.calls() if norm_path(callee_name(t["callee"])).endswith("read_line")]
-        stb = set(b for b, _ in st)
         ok2 = ft is not None and rl and not cf.paths_avoiding(ft, rl[0], stb) and not any(cf.paths_avoiding(ft, r, stb) for r in cf.returns())
         ctx.ob(bool(ok2), "line-failure-always-counted", sat[0][2].get("s"), "no path from a failed line to the next line or to return skips the increment: %s" % bool(ok2))
         ctx.ob(bool(rl) and cf.paths_avoiding(cf.succ(sat[0][0])[0] if cf.succ(sat[0][0]) else 0, rl[0], set()), "remaining-lines-still-checked", cf.loc, "after a failure the loop goes on to the next line")
